@@ -26,7 +26,7 @@ func init() {
 		Explanation: "Probe resistance as control-flow facts on all paths: (SILENT) nothing is written/closed/dialed before authentication and the failure edge drains first; (DRAIN) each of the three failure points — authentication failure (all statuses, " +
 			"including both replay kinds), address-read failure, client-to-target copy error — drains the client connection itself (unbounded io.Copy to io.Discard) before any close; (DEADLINE) the only deadline set before authentication is computed from " +
 			"time.Now, the handler's timeout and the context deadline (never client data), no deadline is touched on the failure path, and the deadline is cleared only after authentication; (NORESET) no SetLinger anywhere; (FIXEDREAD) the key finder reads " +
-			"exactly bytesForKeyFinding bytes with io.ReadFull before deciding; (GATE) replayed and reflected handshakes take the same failure edge, unconditionally; " +
+			"exactly bytesForKeyFinding bytes with io.ReadFull before deciding; (GATE) replayed and reflected handshakes take the same failure edge, unconditionally; (SELECT/CONSTRUCT) the reflected-salt test is armed for every cipher with a salt of at least 20 bytes: marking generator selected by the stated threshold, entries built at one site; " +
 			"(RACEFREE) the shared state read before authentication (key list, entries, replay history) obeys its lock discipline — a race there panics the handler, whose recover frame closes the connection at once instead of absorbing it.",
 		NotDecided: "that the close happens at the deadline within a time bound; FIN vs RST on the wire (kernel).",
 	})
@@ -164,6 +164,15 @@ func runC06(c *Ctx) {
 	// concurrent copies of one handshake: the history lookup and insert are one critical section, so exactly one is served
 	// and the others are absorbed
 	ruleAtomic(c, "ATOMIC", map[string]bool{"(*service.ReplayCache).Add": true})
+	// "replays" include the server's own output reflected back: the reflected-salt gate (GATE8) refuses it only for keys whose
+	// entry carries the marking generator, so the selection threshold and the single construction site are obligations here too
+	// (seed C06-u2: a raised entropy constant silently drops the 24-byte-salt ciphers out of the defence)
+	ruleSelect(c)
+	ruleConstruct(c)
+	ruleSaltKeyed(c)
+	// a panic before or at the authentication verdict is caught by the serve loop's recover frame, whose deferred Close ends the
+	// probe's connection at once instead of absorbing it: no call through a field that is never given a value
+	ruleNeverSetField(c, "NOPANIC")
 }
 
 // C06.RACEFREE: the shared components the authentication code touches (key list, key entries, replay history) obey their lock
@@ -775,6 +784,7 @@ func runC08(c *Ctx) {
 	}
 	ruleSelect(c)
 	ruleConstruct(c)
+	ruleSaltKeyed(c)
 	ruleAgree(c)
 	ruleGeneratorFixed(c, "AGREE")
 }
@@ -1294,4 +1304,74 @@ func ruleAgree(c *Ctx) {
 		}
 	}
 	c.Floor("AGREE", "GetSalt implementations", n, 2)
+}
+
+// C08.KEYED (seed C08-u1): "recognises as its own for that key" — the marking generator of an entry is keyed by the key's
+// secret, the same secret its encryption key is derived from. Two cooperating sites: inside the constructor the generator's
+// key argument is one of the constructor's parameters; at every construction site that parameter receives the very value the
+// encryption key handed to the same call was derived from. A generator keyed by the entry's ID (or anything else) stops
+// recognising salts issued for the same key under another ID — after a reload that renames it, or in a second service.
+func ruleSaltKeyed(c *Ctx) {
+	p := c.P
+	mk := p.Fn("service.MakeCipherEntry")
+	if mk == nil {
+		c.Undecided("KEYED", "anchor:MakeCipherEntry", "-", "MakeCipherEntry not found")
+		return
+	}
+	paramIdx := func(v ssa.Value) int {
+		pa, isP := p.Resolve(v).(*ssa.Parameter)
+		if !isP {
+			return -1
+		}
+		for i, q := range mk.Params {
+			if q == pa {
+				return i
+			}
+		}
+		return -1
+	}
+	kc := -1
+	for i, q := range mk.Params {
+		if strings.HasSuffix(q.Type().String(), "shadowsocks.EncryptionKey") {
+			kc = i
+		}
+	}
+	ks, nGen := -1, 0
+	reg := c.NewRegion(mk, 2, func(h *ssa.Function) bool { return eng.PkgPathOf(h) != eng.Mod+"/service" })
+	reg.Instrs(func(f *ssa.Function, ins ssa.Instruction) {
+		call, ok := ins.(*ssa.Call)
+		if !ok || eng.CalleeName(&call.Call) != "service.NewServerSaltGenerator" || len(call.Call.Args) != 1 {
+			return
+		}
+		nGen++
+		i := -1
+		if f == mk {
+			i = paramIdx(call.Call.Args[0])
+		}
+		c.CheckAt("KEYED", short(f)+":generator-key-is-a-constructor-parameter", call, i >= 0, "the marking generator is keyed by a value that is not a parameter of MakeCipherEntry ("+call.Call.Args[0].String()+")")
+		if i >= 0 {
+			ks = i
+		}
+	})
+	c.Floor("KEYED", "marking-generator constructions in MakeCipherEntry", nGen, 1)
+	if ks < 0 || kc < 0 {
+		return
+	}
+	n := 0
+	for _, s := range p.CallSitesOf(mk) {
+		if p.IsTestSupport(s.Fn) {
+			continue
+		}
+		args := s.Ins.(ssa.CallInstruction).Common().Args
+		if ks >= len(args) || kc >= len(args) {
+			continue
+		}
+		kcall, idx, ok := eng.AsResult(p.Resolve(args[kc]))
+		if !ok || idx != 0 || !strings.HasSuffix(eng.CalleeName(&kcall.Call), "shadowsocks.NewEncryptionKey") || len(kcall.Call.Args) != 2 || kcall.Parent() != s.Fn {
+			continue // the key was built elsewhere: nothing to compare at this site
+		}
+		n++
+		c.CheckAt("KEYED", short(s.Fn)+":generator-keyed-by-the-secret-of-the-encryption-key", s.Ins, p.SameValue(p.Resolve(args[ks]), p.Resolve(kcall.Call.Args[1])), "the entry's marking generator is keyed by "+args[ks].String()+", not by the secret its encryption key was derived from: the same key configured under another ID (a renaming reload, a second service) no longer recognises the salts it issued, so its reflected output is accepted")
+	}
+	c.Floor("KEYED", "construction sites whose encryption key is derived next to the call", n, 1)
 }
